@@ -266,6 +266,9 @@ def call_builtin(eng, name, args, kwargs, st, node):
             return [(st, V(name, items=list(items)))]
         if args[0].k == 'obj' and eng.contract.opts.get('opaque_algebra'):
             return [(st, V('obj', oid='%s!%d' % (name, next(eng.counter))))]
+        if args[0].k == 'seq' and args[0].extra.get('get') is not None:
+            # a copy: same length, same elements (sequences are never mutated in place here)
+            return [(st, V('seq', extra=dict(args[0].extra, copy_of=args[0].extra)))]
         h = eng.contract.hooks.get('to_' + name)
         if h:
             r = h(eng, args[0], st, node)
